@@ -55,7 +55,26 @@ def tf_attr(ops, rnd=None):
     return ' transform="%s"' % ' '.join(op_text(o, rnd) for o in ops)
 
 
-def shape_xml(kind, k, attrs, tf, extra=''):
+def shape_xml(kind, k, attrs, tf, extra='', G=None):
+    if G is not None and kind != 'path':
+        sc, off = G
+        P = lambda v: repr(v * sc + off)       # positions
+        S = lambda v: repr(v * sc)             # sizes
+        i = ' id="n%d"%s%s' % (k, tf, extra)
+        if kind == 'line':
+            return '<line%s x1="%s" y1="%s" x2="%s" y2="%s"/>' % (i, P(attrs['x1']), P(attrs['y1']), P(attrs['x2']), P(attrs['y2']))
+        if kind in ('polyline', 'polygon'):
+            return '<%s%s points="%s"/>' % (kind, i, ' '.join('%s,%s' % (P(p[0]), P(p[1])) for p in attrs['pts']))
+        if kind == 'rect':
+            return '<rect%s x="%s" y="%s" width="%s" height="%s"/>' % (i, P(attrs['x']), P(attrs['y']), S(attrs['w']), S(attrs['h']))
+        if kind == 'rrect':
+            rx = ' rx="%s"' % S(attrs['rx']) if attrs['rx'] else ''
+            ry = ' ry="%s"' % S(attrs['ry']) if attrs['ry'] else ''
+            return '<rect%s x="%s" y="%s" width="%s" height="%s"%s%s/>' % (i, P(attrs['x']), P(attrs['y']), S(attrs['w']), S(attrs['h']), rx, ry)
+        if kind == 'circle':
+            return '<circle%s cx="%s" cy="%s" r="%s"/>' % (i, P(attrs['cx']), P(attrs['cy']), S(attrs['r']))
+        if kind == 'ellipse':
+            return '<ellipse%s cx="%s" cy="%s" rx="%s" ry="%s"/>' % (i, P(attrs['cx']), P(attrs['cy']), S(attrs['rx']), S(attrs['ry']))
     i = ' id="n%d"%s%s' % (k, tf, extra)
     if kind == 'path':
         return '<path%s d="%s"/>' % (i, PATH_D[attrs['d']])
@@ -76,7 +95,7 @@ def shape_xml(kind, k, attrs, tf, extra=''):
     raise ValueError(kind)
 
 
-def render(case, rnd=None, svg_attrs=''):
+def render(case, rnd=None, svg_attrs='', G=None):
     nodes = case['nodes']
     n = len(nodes)
     kids = {k: [j for j in range(1, n + 1) if nodes[j - 1]['parent'] == k] for k in range(1, n + 1)}
@@ -89,7 +108,7 @@ def render(case, rnd=None, svg_attrs=''):
             if k == 1:
                 return '<svg xmlns="%s" version="1.1"%s%s>\n%s</svg>\n' % (NS, tf, svg_attrs, inner)
             return '%s<g id="n%d"%s>\n%s%s</g>\n' % (ind, k, tf, inner, ind)
-        return ind + shape_xml(nd['kind'], k, case['attrs'][k - 1], tf) + '\n'
+        return ind + shape_xml(nd['kind'], k, case['attrs'][k - 1], tf, G=G) + '\n'
     return rec(1, '')
 
 
